@@ -327,8 +327,8 @@ Proof. vm_compute. reflexivity. Qed.
 (* ------------------------------------------------------------ the reader of C11 on the expanded text *)
 
 (* exact_view / inexact_view stand for what Table._read makes of the generated if-blocks.  Running C11's model
-   of the real reader (Model/Blocks.v table_actions) on the rendered text agrees when the exact block is not
-   empty ... *)
+   of the real reader (Model/Blocks.v table_actions; its second flag selects the reader with the repair of C11's
+   D6, proposed_fixes/C11-empty-branch) on the rendered text agrees when the exact block is not empty ... *)
 Definition nl : ascii := ascii_of_nat 10.
 Definition table_text (out : list oline) : str := join nl (map render out) ++ [nl].
 Definition cmds (r : res (list Args.action)) : list (string * list string) :=
@@ -340,27 +340,37 @@ Definition exact_env : Cond.cenv := Cond.mkCenv (lit "Linux64") [lit "exact"].
 Definition inexact_env : Cond.cenv := Cond.mkCenv (lit "Linux64") [].
 
 Example reader_agrees_when_pins_exist :
-  cmds (Blocks.table_actions true (lit "top") (table_text xout) exact_env)
+  cmds (Blocks.table_actions true true (lit "top") (table_text xout) exact_env)
     = [ ("envSet", ["FOO"; "bar"]); ("setupRequired", ["b"; "-j"; "1.0"]); ("setupRequired", ["a"; "-j"; "2.0"]);
         ("setupRequired", ["c"; "-j"; "1.0"]) ]%string /\
-  cmds (Blocks.table_actions true (lit "top") (table_text xout) inexact_env)
+  cmds (Blocks.table_actions true true (lit "top") (table_text xout) inexact_env)
     = [ ("setupRequired", ["b"; "1.0"; "[>="; "1.0]"]); ("envSet", ["FOO"; "bar"]);
         ("setupRequired", ["c"; "1.0"; "[>="; "0.5]"]); ("setupRequired", ["d"; ">="; "1.0"]) ]%string.
 Proof. split; vm_compute; reflexivity. Qed.
 
-(* ... and does not when nothing is pinned: C11's open finding D6 (a branch without a command) makes the
-   reader run the else branch exactly in exact mode.  This is the one input class on which the hypothesis
-   [p_actions ptop = exact_actions interp (exact_view out) ++ ...] of the replay theorems is not what the real
-   reader delivers; the check reports it as a known finding (empty exact block). *)
+(* ... and also when nothing is pinned, the exact block being empty: exact mode sees the lines outside the
+   blocks only, non-exact mode sees the original setup line as well. *)
 Definition eout : list oline :=
   match expand [] [] (lit "top") [] false []
                [LOther (lit "envSet(A, c)"); LSetup (sl true "b" [] None None "setupOptional(b)")] with
   | Ok out => out
   | Err _ => []
   end.
-Example empty_exact_block_refuted :
+Example reader_agrees_when_nothing_is_pinned :
   pins_of eout = [] /\
-  cmds (Blocks.table_actions true (lit "top") (table_text eout) exact_env)
+  map render (exact_view eout) = [lit "envSet(A, c)"] /\
+  cmds (Blocks.table_actions true true (lit "top") (table_text eout) exact_env) = [ ("envSet", ["A"; "c"]) ]%string /\
+  cmds (Blocks.table_actions true true (lit "top") (table_text eout) inexact_env)
+    = [ ("envSet", ["A"; "c"]); ("setupRequired", ["b"]) ]%string.
+Proof. repeat split; vm_compute; reflexivity. Qed.
+
+(* The reader before that repair did not: C11's finding D6 (a branch without a command) made it run the else
+   branch exactly in exact mode.  This was the one input class on which the hypothesis
+   [p_actions ptop = exact_actions interp (exact_view out) ++ ...] of the replay theorems was not what the real
+   reader delivered (known finding D6-C17, empty exact block). *)
+Example empty_exact_block_refuted_pinned :
+  pins_of eout = [] /\
+  cmds (Blocks.table_actions true false (lit "top") (table_text eout) exact_env)
     = [ ("envSet", ["A"; "c"]); ("setupRequired", ["b"]) ]%string /\
-  cmds (Blocks.table_actions true (lit "top") (table_text eout) inexact_env) = [ ("envSet", ["A"; "c"]) ]%string.
+  cmds (Blocks.table_actions true false (lit "top") (table_text eout) inexact_env) = [ ("envSet", ["A"; "c"]) ]%string.
 Proof. repeat split; vm_compute; reflexivity. Qed.
